@@ -103,3 +103,12 @@ package address
 //@   prop C17
 //@   nopanic
 //@   modifies *
+
+// PRECISFold / Valid as functions of the address (C14: which normalisation the default user-name normaliser applies).
+//@ uninterp func precisFoldOf(a string) string
+//@ uninterp func precisFoldErrOf(a string) error
+//@ uninterp func validAddr(a string) bool
+//@ func PRECISFold
+//@   prop C14
+//@   trusted
+//@   ensures result0 == precisFoldOf(addr) && result1 == precisFoldErrOf(addr)
